@@ -66,6 +66,22 @@ Theorem C04_history : forall mq ra deny (h : hist) orc drops pub m0 c d,
     (cl_ver cl <> 5 -> d_ids d = []).
 Proof. exact DeliverTheorems.C04_history. Qed.
 
+(* the copy stored for a client that cannot take the message now (offline persistent session; in the Go code
+   also the copy held back by Receive Maximum — the same value `out`) is the copy a connected client would
+   have been sent: same QoS, identifiers and retain flag, so C04_qos / C04_ids / C04_retain apply to every later
+   transmission made from it (release after an acknowledgement, delivery on reconnection, DUP resend) *)
+Theorem C04_stored_copy : forall s c cl sub m dr d,
+  publish_to_client s c cl sub m dr = PQueue d ->
+  publish_to_client s c (online cl) sub m false = PSend (wire (online cl) d) /\ 0 < d_qos d.
+Proof. exact stored_copy_same. Qed.
+
+(* a resumed session is sent exactly its stored copies, encoded for the new connection's protocol version *)
+Theorem C04_resume : forall orc drops s c ver persist rpi0 old,
+  get_client s c = Some old ->
+  o_deliv (snd (step orc drops s (OConnect c ver false persist rpi0)))
+  = map (wire (mkCl true ver rpi0 (if ver <? 5 then true else persist) (cl_subs old) [])) (cl_pending old).
+Proof. exact resume_sends_stored. Qed.
+
 (* non-vacuity: three overlapping subscriptions (one shared) with different QoS / identifiers / RAP *)
 Definition so (q : N) (rap : bool) (id : N) : subopt := mkSO q false rap 0 id.
 Definition ex_hist : hist :=
@@ -92,3 +108,5 @@ Print Assumptions C04_ids.
 Print Assumptions C04_ids_retained.
 Print Assumptions C04_retain.
 Print Assumptions C04_history.
+Print Assumptions C04_stored_copy.
+Print Assumptions C04_resume.
